@@ -340,6 +340,32 @@ func (w *vckWorld) variants(r *vckRow) (vs []vckVariant, region int) {
 	case "sig-byte":
 		raw := vckDecodeSig(sig)
 		flipAll("sig", raw, func(m []byte) []byte { return vckJoin(content, append(vckEncodeV1(m, 76), '\n')) })
+	case "sig-alias":
+		// change bytes of the decoded signature that carry no signature material
+		raw := vckDecodeSig(sig)
+		region = len(raw)
+		if raw[0] != 0xC2 || raw[2] != 4 || len(raw) != 2+int(raw[1]) || raw[1] >= 191 {
+			panic(fmt.Sprintf("harness: unexpected signature packet layout % x", raw[:8]))
+		}
+		m1 := append([]byte(nil), raw...)
+		m1[1]++ // declared packet length one more than what follows
+		vs = append(vs, vckVariant{"packet-length+1", vckJoin(content, append(vckEncodeV1(m1, 76), '\n'))})
+		// MPI bit count: another value needing the same number of bytes
+		hashedLen := int(raw[6])<<8 | int(raw[7])
+		off := 8 + hashedLen
+		unhashedLen := int(raw[off])<<8 | int(raw[off+1])
+		off += 2 + unhashedLen + 2 // unhashed subpackets, 2 bytes hash tag
+		bl := int(raw[off])<<8 | int(raw[off+1])
+		if off+2+(bl+7)/8 != len(raw) {
+			panic("harness: unexpected signature MPI layout")
+		}
+		bl2 := bl - 1
+		if bl2 <= 0 || (bl2+7)/8 != (bl+7)/8 {
+			bl2 = bl + 1
+		}
+		m2 := append([]byte(nil), raw...)
+		m2[off], m2[off+1] = byte(bl2>>8), byte(bl2)
+		vs = append(vs, vckVariant{"mpi-bitcount", vckJoin(content, append(vckEncodeV1(m2, 76), '\n'))})
 	case "sig-reencode":
 		raw := vckDecodeSig(sig)
 		vs = append(vs, vckVariant{"reencode-64", vckJoin(content, append(vckEncodeV1(raw, 64), '\n'))})
@@ -454,20 +480,32 @@ func TestVerifAssertCheck(t *testing.T) {
 		o := vckOut{I: r.I, Variants: len(vs), Check: "reject", Add: "reject", Reasons: map[string]int{}, Region: region}
 		for j, v := range vs {
 			c, a := w.judge(db, &r, v.enc)
-			if j == 0 {
-				o.Sample = string(v.enc)
-				if len(vs) == 1 {
-					o.Check, o.Add = c, a
-				}
+			if j == 0 && len(vs) == 1 {
+				o.Check, o.Add = c, a
 			}
 			o.Reasons[c]++
 			if c == "accept" || a == "accept" {
-				o.Accepted = append(o.Accepted, v.desc)
+				if len(o.Accepted) < 64 {
+					o.Accepted = append(o.Accepted, v.desc)
+				}
+				if o.Sample == "" {
+					o.Sample = string(v.enc)
+				}
 				if c == "accept" {
 					o.Check = "accept"
 				}
 				if a == "accept" {
 					o.Add = "accept"
+				}
+			}
+		}
+		if r.Mut == "sig-reencode" {
+			// every re-encoding must behave alike: report the first non-accepting verdict if any
+			for _, v := range vs {
+				c, a := w.judge(db, &r, v.enc)
+				if c != "accept" || a != "accept" {
+					o.Check, o.Add = c, a
+					break
 				}
 			}
 		}
